@@ -10,21 +10,52 @@
 #define C01P_GHOST_H
 #include "dbus/dbus-protocol.h"
 #include "dbus/dbus-marshal-recursive.h"
-extern DBusTypeReader *verif_reader;
-extern int verif_cur_r, verif_elem_r, verif_cur_s, verif_elem_s;
-extern int verif_depth0, verif_bo0;           /* total_depth and byte_order of the activation under contract */
-extern long verif_p0_off, verif_end_off;      /* offsets of p and end at entry */
-extern const unsigned char *verif_base;       /* the buffer object */
-extern int verif_site2, verif_site3, verif_site4;   /* which recursive call sites were taken (vacuity guard only) */
-/* the one constant DBusString alive at a time (block-local `str` / `sig`): identity, data pointer, length.
- * (Ghost record instead of the DBusRealString fields: DFCC does not track address-taken block locals of a loop that
- * also contains contract loops, so a callee writing through &str fails its frame check spuriously -- measured.) */
-extern const DBusString *verif_cs; extern const unsigned char *verif_cs_ptr; extern int verif_cs_len;
+/* constants of the activation under contract (set once by the harness, never assigned afterwards) */
+struct verif_k_s { DBusTypeReader *reader;        /* identity of the parameter reader */
+                   int depth0, bo0;               /* total_depth and byte_order of the activation */
+                   long p0_off, end_off;          /* offsets of p and end at entry */
+                   const unsigned char *base; };  /* the buffer object */
+/* mutable ghost state (one assigns target for the loop contracts) */
+struct verif_g_s { int cur_r, elem_r, cur_s, elem_s;
+                   int site2, site3, site4;       /* which recursive call sites were taken (vacuity guard only) */
+                   /* the one constant DBusString alive at a time (block-local `str` / `sig`): identity, data pointer, length.
+                    * (Ghost record instead of the DBusRealString fields: DFCC does not track address-taken block locals of a
+                    * loop that also contains contract loops, so a callee writing through &str fails its frame check
+                    * spuriously -- measured.) */
+                   const DBusString *cs; const unsigned char *cs_ptr; int cs_len; };
+extern struct verif_k_s verif_k; extern struct verif_g_s verif_g;
+#define verif_reader verif_k.reader
+#define verif_depth0 verif_k.depth0
+#define verif_bo0 verif_k.bo0
+#define verif_p0_off verif_k.p0_off
+#define verif_end_off verif_k.end_off
+#define verif_base verif_k.base
+#define verif_cur_r verif_g.cur_r
+#define verif_elem_r verif_g.elem_r
+#define verif_cur_s verif_g.cur_s
+#define verif_elem_s verif_g.elem_s
+#define verif_site2 verif_g.site2
+#define verif_site3 verif_g.site3
+#define verif_site4 verif_g.site4
+#define verif_cs verif_g.cs
+#define verif_cs_ptr verif_g.cs_ptr
+#define verif_cs_len verif_g.cs_len
 /* set by injected ghost statements when a byte-read site of validate_body_helper reads at or after `end` */
 extern int verif_overread;
 #define VERIF_IS_TYPE(t) ((t)==DBUS_TYPE_BYTE||(t)==DBUS_TYPE_BOOLEAN||(t)==DBUS_TYPE_INT16||(t)==DBUS_TYPE_UINT16||(t)==DBUS_TYPE_INT32|| \
   (t)==DBUS_TYPE_UINT32||(t)==DBUS_TYPE_INT64||(t)==DBUS_TYPE_UINT64||(t)==DBUS_TYPE_DOUBLE||(t)==DBUS_TYPE_STRING||(t)==DBUS_TYPE_OBJECT_PATH|| \
   (t)==DBUS_TYPE_SIGNATURE||(t)==DBUS_TYPE_UNIX_FD||(t)==DBUS_TYPE_ARRAY||(t)==DBUS_TYPE_VARIANT||(t)==DBUS_TYPE_STRUCT||(t)==DBUS_TYPE_DICT_ENTRY)
+/* Case split of the proof over the type code that the loop head of validate_body_helper sees (one unit per class, see
+ * tool/units/c01p.py): the stub of _dbus_type_reader_get_current_type assumes VERIF_CASE(code) for the reader under contract.
+ * An execution of the loop-contract-transformed function evaluates that call at most once (base case: none; arbitrary
+ * iteration / exit: once), so the units together cover every execution iff the classes cover all type codes: obligation
+ * "cases.cover" in every unit. */
+#define VERIF_CLASS_FIXED(t) ((t)==DBUS_TYPE_BYTE||(t)==DBUS_TYPE_BOOLEAN||(t)==DBUS_TYPE_INT16||(t)==DBUS_TYPE_UINT16||(t)==DBUS_TYPE_INT32|| \
+  (t)==DBUS_TYPE_UINT32||(t)==DBUS_TYPE_INT64||(t)==DBUS_TYPE_UINT64||(t)==DBUS_TYPE_DOUBLE||(t)==DBUS_TYPE_UNIX_FD)
+#define VERIF_CLASS_STRING(t) ((t)==DBUS_TYPE_STRING||(t)==DBUS_TYPE_OBJECT_PATH||(t)==DBUS_TYPE_SIGNATURE)
+#define VERIF_CLASS_ARRAY(t) ((t)==DBUS_TYPE_ARRAY)
+#define VERIF_CLASS_NESTED(t) ((t)==DBUS_TYPE_VARIANT||(t)==DBUS_TYPE_STRUCT||(t)==DBUS_TYPE_DICT_ENTRY)
+#define VERIF_CLASSES_COVER(t) ((t)==DBUS_TYPE_INVALID||VERIF_CLASS_FIXED(t)||VERIF_CLASS_STRING(t)||VERIF_CLASS_ARRAY(t)||VERIF_CLASS_NESTED(t))
 #ifdef VERIF_TYPE_SUBSET     /* development only: restrict the reader's type codes to debug contracts cheaply */
 #define VERIF_CUR_OK(t) ((t)==DBUS_TYPE_INVALID || (VERIF_IS_TYPE(t) && VERIF_TYPE_SUBSET(t)))
 #else
